@@ -12,15 +12,6 @@
 #include <unistd.h>
 #include <vector>
 
-// ---- sanitizer defaults (non-inline, used) -----------------------------------------------------
-extern "C" __attribute__((used)) const char *__asan_default_options() {
-  return "exitcode=77:detect_leaks=0:abort_on_error=0:allocator_may_return_null=1:detect_stack_use_after_return=0:handle_segv=1:handle_abort=0";
-}
-extern "C" __attribute__((used)) const char *__tsan_default_options() {
-  return "exitcode=66:report_thread_leaks=0:detect_deadlocks=0:report_signal_unsafe=0:halt_on_error=1:second_deadlock_stack=0:report_destroy_locked=0:history_size=4";
-}
-extern "C" __attribute__((used)) const char *__ubsan_default_options() { return "halt_on_error=1:print_stacktrace=1"; }
-
 // ---- spec strings: "k=v,k=v,trace=1:0:2" --------------------------------------------------------
 typedef std::map<std::string, std::string> Spec;
 static inline Spec parse_spec(const std::string &s) {
